@@ -43,7 +43,7 @@ func checkC18(c *Ctx) {
 			r.Undecided(rule, name, "definition", "cmd/build_sample_md", "anchor function not found")
 			return
 		}
-		r.Check(f.canon(nf) == f.canon(want), rule, name, "closed-form", c.Pos(f.M.Fset, fn.Decl.Pos()), why, "closed form is not the specified one ("+why+"); "+diffHint(nf, want))
+		r.Check(f.canon(nf) == f.canonSpec(want), rule, name, "closed-form", c.Pos(f.M.Fset, fn.Decl.Pos()), why, "closed form is not the specified one ("+why+"); "+diffHint(nf, want))
 	}
 	const cols = `strings.SplitN(2, " ", p1)`
 	const name = "slice.Head(" + cols + ")"
